@@ -103,6 +103,18 @@ type c15Exp struct {
 	failAt  int               // index in the snapshot's transaction list
 	already []crypto.Hash     // members that were final before the call
 	fresh   []crypto.Hash
+	// every Set in issue order (repeats included), with the member it belongs
+	// to (-1 = snapshot/topology/work tail): replayed on a scratch transaction of
+	// a size-limited store to learn where Badger's ErrTxnTooBig must strike
+	order        []c15Write
+	cur          int
+	tooBigAt     int // index in order, -1 = the call fits in one Badger transaction
+	tooBigMember int
+}
+
+type c15Write struct {
+	k, v   []byte
+	member int
 }
 
 func (x *c15Exp) get(k []byte) (string, bool) {
@@ -114,12 +126,16 @@ func (x *c15Exp) get(k []byte) (string, bool) {
 	return v, ok
 }
 
-func (x *c15Exp) set(k, v []byte) { x.writes[hex.EncodeToString(k)] = hex.EncodeToString(v) }
+func (x *c15Exp) set(k, v []byte) {
+	x.writes[hex.EncodeToString(k)] = hex.EncodeToString(v)
+	x.order = append(x.order, c15Write{k: append([]byte{}, k...), v: append([]byte{}, v...), member: x.cur})
+}
 
 func c15Expect(pre map[string]string, topo *common.SnapshotWithTopologicalOrder, signers []crypto.Hash, bodies map[crypto.Hash]*common.VersionedTransaction) *c15Exp {
-	x := &c15Exp{pre: pre, writes: map[string]string{}, failAt: -1}
+	x := &c15Exp{pre: pre, writes: map[string]string{}, failAt: -1, tooBigAt: -1, tooBigMember: -1}
 	snapHash := topo.PayloadHash()
 	for i, h := range topo.Transactions {
+		x.cur = i
 		tx := bodies[h]
 		if tx == nil {
 			panic("c15: member without body " + h.String())
@@ -136,6 +152,7 @@ func c15Expect(pre map[string]string, topo *common.SnapshotWithTopologicalOrder,
 		}
 		x.set(c15K("UNIQUE", h[:], topo.NodeId[:]), nil)
 	}
+	x.cur = -1
 	snapKey := c15K("SNAPSHOT", topo.NodeId[:], c15BE(topo.RoundNumber), snapHash[:])
 	x.set(snapKey, topo.VersionedMarshal())
 	topoKey := c15K("TOPOLOGY", c15BE(topo.TopologicalOrder))
@@ -334,6 +351,8 @@ type c15Env struct {
 	base       map[string]string // dump at the end of the setup
 	baseKey    string
 	resets     int
+	tsDelta    int64 // seconds added to the timestamp of the next snapshot (may be negative)
+	small      bool  // snapshot DB opened with a small memtable (low per-transaction limits)
 }
 
 func (e *c15Env) acct() []*common.Address { a := e.Acct; return []*common.Address{&a} }
@@ -418,6 +437,41 @@ func (e *c15Env) sealSetup() {
 // the dump.
 func (e *c15Env) reset(c *verifmc.Check) {
 	cur := e.L.Store.VerifDump("")
+	if e.small {
+		wb := e.L.Store.snapshotsDB.NewWriteBatch()
+		defer wb.Cancel()
+		for k := range cur {
+			if _, ok := e.base[k]; !ok {
+				kb, _ := hex.DecodeString(k)
+				if err := wb.Delete(kb); err != nil {
+					panic(err)
+				}
+			}
+		}
+		for k, v := range e.base {
+			if cv, ok := cur[k]; !ok || cv != v {
+				kb, _ := hex.DecodeString(k)
+				vb, _ := hex.DecodeString(v)
+				if err := wb.Set(kb, vb); err != nil {
+					panic(err)
+				}
+			}
+		}
+		if err := wb.Flush(); err != nil {
+			panic(err)
+		}
+		if got := c15DumpHash(e.L.Store.VerifDump("")); got != e.baseKey {
+			c.Require(false, "small ledger reset did not restore the setup dump")
+			panic("c15: reset failed")
+		}
+		e.firstFinal = map[crypto.Hash]crypto.Hash{}
+		for i := range e.onChain {
+			e.onChain[i] = map[crypto.Hash]bool{}
+		}
+		e.lastKey = e.baseKey
+		e.resets++
+		return
+	}
 	err := e.L.Store.snapshotsDB.Update(func(txn *badger.Txn) error {
 		for k := range cur {
 			if _, ok := e.base[k]; !ok {
@@ -505,7 +559,7 @@ func (e *c15Env) make(class, tag string, deps map[string]*c15Member, accept func
 	thr1 := common.NewThresholdScript(1)
 	var in *common.Input
 	switch class {
-	case "T1", "C", "U", "Xg", "t":
+	case "T1", "C", "U", "Xg", "t", "t3":
 		in = e.take(&e.xIn, class)
 	case "T2", "W":
 		in = e.take(&e.bIn, class)
@@ -527,6 +581,14 @@ func (e *c15Env) make(class, tag string, deps map[string]*c15Member, accept func
 			tx.AddInput(in.Hash, in.Index)
 			tx.AddScriptOutput(e.acct(), thr1, common.NewIntegerFromString("3"), seed("t1:o0"))
 			tx.AddScriptOutput(e.acct(), thr1, common.NewIntegerFromString("7"), seed("t1:o1"))
+			tx.Extra = saltB
+			return tx
+		case "t3":
+			tx := common.NewTransactionV5(common.XINAssetId)
+			tx.AddInput(in.Hash, in.Index)
+			for k, a := range []string{"2", "3", "5"} {
+				tx.AddScriptOutput(e.acct(), thr1, common.NewIntegerFromString(a), seed(fmt.Sprintf("t3:o%d", k)))
+			}
 			tx.Extra = saltB
 			return tx
 		case "t":
@@ -725,6 +787,8 @@ type c15Step struct {
 	CutFired bool
 	Commits  int
 	Sorted   []*c15Member
+	Writes   int // number of Sets the call needs (size-limited stores only)
+	TooBigAt int // write index at which the Badger transaction overflows, -1 = fits
 }
 
 var c15States sync.Map
@@ -747,7 +811,7 @@ func (e *c15Env) step(c *verifmc.Check, slot int, ms []*c15Member, check bool, c
 		panic(fmt.Errorf("c15 head round: %v", err))
 	}
 	next := store.VerifNextTopology()
-	ts := e.L.Net.Epoch + uint64(2*time.Hour) + next*uint64(time.Second)
+	ts := uint64(int64(e.L.Net.Epoch+uint64(2*time.Hour)+next*uint64(time.Second)) + e.tsDelta*int64(time.Second))
 	sorted := append([]*c15Member{}, ms...)
 	sort.Slice(sorted, func(i, j int) bool { return bytes.Compare(sorted[i].H[:], sorted[j].H[:]) < 0 })
 	snap := &common.Snapshot{Version: common.SnapshotVersionCommonEncoding, NodeId: node, RoundNumber: head.Number, References: head.References, Timestamp: ts}
@@ -759,13 +823,28 @@ func (e *c15Env) step(c *verifmc.Check, slot int, ms []*c15Member, check bool, c
 	topo := &common.SnapshotWithTopologicalOrder{Snapshot: snap, TopologicalOrder: next}
 	signers := []crypto.Hash{node, e.L.Net.NodeIds[0]}
 
-	res := c15Step{FailAt: -1, N: len(sorted), Sorted: sorted}
+	res := c15Step{FailAt: -1, N: len(sorted), Sorted: sorted, TooBigAt: -1}
 	var pre map[string]string
 	var exp *c15Exp
 	if check {
 		pre = store.VerifDump("")
 		exp = c15Expect(pre, topo, signers, e.bodies)
 		res.Already = len(exp.already)
+		if e.small && exp.fail == "" {
+			// where does Badger's per-transaction limit strike on this store?
+			txn := store.snapshotsDB.NewTransaction(true)
+			for i, w := range exp.order {
+				err := txn.Set(w.k, w.v)
+				if err == badger.ErrTxnTooBig {
+					exp.tooBigAt, exp.tooBigMember = i, w.member
+					break
+				} else if err != nil {
+					panic(err)
+				}
+			}
+			txn.Discard()
+			res.Writes, res.TooBigAt = len(exp.order), exp.tooBigAt
+		}
 	}
 	var cut *c15Cut
 	if e.Dir != "" {
@@ -871,6 +950,15 @@ func (e *c15Env) step(c *verifmc.Check, slot int, ms []*c15Member, check bool, c
 			res.Outcome += fmt.Sprintf("@commit%d", cutAt)
 			return res
 		}
+		if exp.fail == "" && exp.tooBigAt >= 0 {
+			// the batch does not fit in one Badger transaction: rejected as a whole
+			if !errors.Is(werr, badger.ErrTxnTooBig) {
+				c.Require(false, "scratch transaction overflows at write %d for %s, code failed with %v %v", exp.tooBigAt, shape, werr, p)
+			}
+			res.FailAt = exp.tooBigMember
+			res.Outcome = fmt.Sprintf("reject:error:toobig@%d/%d", exp.tooBigMember, len(sorted))
+			return res
+		}
 		if exp.fail == "" {
 			// allowed by the statement (none of the effects), but not expected from a valid batch
 			c.Stricter("valid batch rejected: " + shape)
@@ -919,6 +1007,15 @@ func (e *c15Env) step(c *verifmc.Check, slot int, ms []*c15Member, check bool, c
 		}
 	}
 	e.checkHistory(post, shape, report)
+	if cut != nil && res.Commits != 1 {
+		report("atomicity:snapshot-spread-over-several-commits", fmt.Sprintf("WriteSnapshot %s returned nil after %d Badger commits on the snapshot DB: a crash or a later failure between them leaves part of the snapshot applied", shape, res.Commits))
+	}
+	if exp.tooBigAt >= 0 {
+		res.Outcome += ":although-too-big"
+		if len(diffKeys(want, post)) == 0 && res.Commits == 1 {
+			c.Require(false, "scratch transaction overflows at write %d/%d for %s but the code applied everything in one commit", exp.tooBigAt, len(exp.order), shape)
+		}
+	}
 	return res
 }
 
@@ -1252,7 +1349,21 @@ func c15PartHistories(c *verifmc.Check, name string, classes []string, maxSub, d
 
 func c15PartCut(c *verifmc.Check, t *testing.T) {
 	base := t.TempDir()
-	sels := c15Selections(c15BatchClasses, verifmc.Pick(c, 2, 2))
+	sels := c15Selections(c15BatchClasses, 2)
+	if !c.Thorough() {
+		// quick: singles and unordered pairs (the first class sorts first)
+		var keep [][]string
+		idx := map[string]int{}
+		for j, s := range c15BatchClasses {
+			idx[s] = j
+		}
+		for _, s := range sels {
+			if len(s) == 1 || idx[s[0]] < idx[s[1]] || s[0] == "Xg" || s[0] == "Xa" {
+				keep = append(keep, s)
+			}
+		}
+		sels = keep
+	}
 	if c.Thorough() {
 		// plus every size-3 selection that starts with a non-poison member
 		for _, s := range c15Selections(c15BatchClasses, 3) {
@@ -1301,6 +1412,194 @@ func c15PartCut(c *verifmc.Check, t *testing.T) {
 	c.Require(fired.Load() >= int64(len(sels))/3, "commit seam fired only %d times over %d scenarios", fired.Load(), len(sels))
 }
 
+
+// ---------------------------------------------------------------- part 5: re-finalization matrix
+
+// A transaction shared by snapshots of two (three) chains: kind x timestamp of
+// the later-written snapshot relative to the first {earlier, equal, later} x
+// {an output of the transaction was locked by a spender between the two
+// writes} x {the second snapshot holds only the shared transaction / also a
+// fresh one}. The byte-level oracle of step() requires that the second write
+// adds only its own UNIQUE/SNAPSHOT/TOPOLOGY/SNAPTOPO/WORKSNAPSHOT records.
+func c15PartRefinalize(c *verifmc.Check) {
+	kinds := []string{"T1", "T2", "D", "N", "W", "C", "M", "P", "U"}
+	rels := []struct {
+		name  string
+		delta int64
+	}{{"earlier", -2}, {"equal", -1}, {"later", 0}}
+	type rc struct {
+		kind  string
+		rel   int
+		lock  bool
+		mixed bool
+	}
+	var cases []rc
+	for _, k := range kinds {
+		for r := range rels {
+			for _, l := range []bool{false, true} {
+				for _, m := range []bool{false, true} {
+					cases = append(cases, rc{k, r, l, m})
+				}
+			}
+		}
+	}
+	c.Set("refinalize_cases", len(cases))
+	c.ParallelN(len(cases), "refinalize", func(_, i int) {
+		rcase := cases[i]
+		name := fmt.Sprintf("%s/second-%s/locked-between=%v/with-fresh-member=%v", rcase.kind, rels[rcase.rel].name, rcase.lock, rcase.mixed)
+		c15Guard(c, "refinalize "+name, func() {
+			sel := []string{rcase.kind}
+			if rcase.mixed {
+				if rcase.kind == "D" {
+					sel = append(sel, "T1")
+				} else {
+					sel = append(sel, "D")
+				}
+			}
+			e := c15BuildSel("", sel, false)
+			defer func() { e.L.Close() }()
+			x := e.pool[0]
+			var calls []string
+			rep := func(key, desc string) {
+				c.Violation(key, desc, map[string]any{"part": "refinalize", "case": name, "calls": append([]string{}, calls...)})
+			}
+			calls = append(calls, "chain1:{X} at t0")
+			r1 := e.step(c, 0, []*c15Member{x}, true, 0, true, rep)
+			c15Record(c, "refinalize", r1)
+			c.Require(r1.OK, "refinalize %s: first finalization failed: %s", name, r1.Outcome)
+			if rcase.lock {
+				// a spender of the first unspent output locks it (admission path of the spender)
+				u := x.Tx.UnspentOutputs()[0]
+				spender := fixc.Hash("c15-spender-of-" + x.H.String())
+				if err := e.L.Store.LockUTXOs([]*common.Input{{Hash: x.H, Index: u.Index}}, spender, false); err != nil {
+					panic(err)
+				}
+				calls = append(calls, fmt.Sprintf("lock output %d of X for a spender", u.Index))
+			}
+			e.tsDelta = rels[rcase.rel].delta
+			calls = append(calls, fmt.Sprintf("chain2:%v at t0%+d s", sel, e.tsDelta+1))
+			r2 := e.step(c, 1, e.pool, true, 0, true, rep)
+			c15Record(c, "refinalize", r2)
+			c.Require(r2.OK && r2.Already == 1, "refinalize %s: second snapshot: %s already=%d", name, r2.Outcome, r2.Already)
+			e.tsDelta = -5
+			calls = append(calls, "chain3:{X} at t0-3 s")
+			r3 := e.step(c, 2, []*c15Member{x}, true, 0, true, rep)
+			c15Record(c, "refinalize", r3)
+			c.Require(r3.OK && r3.Already == 1, "refinalize %s: third snapshot: %s", name, r3.Outcome)
+			c.Outcome("refinalize:second-" + rels[rcase.rel].name + ":" + strings.SplitN(r2.Outcome, ":", 2)[0])
+			c.Distinct("refinalize:" + name + "|" + r2.Outcome + "|" + r3.Outcome)
+			if i%37 == 0 {
+				c.Sample(map[string]any{"part": "refinalize", "case": name, "second": r2.Outcome, "third_earlier_than_both": r3.Outcome})
+			}
+		})
+	})
+}
+
+// ---------------------------------------------------------------- part 6: batches around Badger's per-transaction limit
+
+// The snapshot DB of a prepared ledger is copied into on-disk Badger stores
+// opened with small memtables (Badger derives its per-transaction entry count
+// and size limits from the memtable size), sweeping the memtable size so that
+// the overflow point of a batch of k = 1..6 members moves over every write of
+// the call, up to stores where the whole batch fits. Oracle: the call either
+// fails and leaves the dump unchanged, or returns nil with every effect of
+// every member present and exactly one Badger commit.
+func c15PartTooBig(c *verifmc.Check, t *testing.T) {
+	classes := []string{"t3", "d", "t3", "d", "t3", "t3"}
+	// template ledger (ordinary limits): funding, bodies written, inputs locked
+	var tmplPool []*c15Member
+	tmpl := c15NewEnv("", len(classes)+2, 1, 0, nil)
+	for j, cl := range classes {
+		m := tmpl.make(cl, fmt.Sprintf("big%d", j), nil, nil)
+		tmpl.admit(m)
+		tmplPool = append(tmplPool, m)
+	}
+	tmpl.sealSetup()
+	defer tmpl.L.Close()
+
+	base := t.TempDir()
+	step := verifmc.Pick(c, int64(384), int64(64))
+	var sizes []int64
+	for sz := int64(2048); sz <= 48<<10; sz += step {
+		sizes = append(sizes, sz)
+	}
+	c.Set("toobig_stores", len(sizes))
+	var mu sync.Mutex
+	covered := map[string]bool{} // "k/writeIndex" of overflow points reached for the full batch
+	fits := 0
+	c.ParallelN(len(sizes), "toobig", func(_, i int) {
+		c15Guard(c, fmt.Sprintf("toobig memtable %d", sizes[i]), func() {
+			dir := filepath.Join(base, fmt.Sprintf("small-%d", sizes[i]))
+			opts := badger.DefaultOptions(dir).WithLogger(nil).WithMemTableSize(sizes[i]).WithValueThreshold(1).WithMetricsEnabled(false).WithNumCompactors(2)
+			db, err := badger.Open(opts)
+			if err != nil {
+				panic(err)
+			}
+			store, err := OpenForVerif("")
+			if err != nil {
+				panic(err)
+			}
+			_ = store.snapshotsDB.Close()
+			store.snapshotsDB = db
+			defer func() { _ = store.Close(); _ = os.RemoveAll(dir) }()
+			wb := db.NewWriteBatch()
+			for k, v := range tmpl.base {
+				kb, _ := hex.DecodeString(k)
+				vb, _ := hex.DecodeString(v)
+				if err := wb.Set(kb, vb); err != nil {
+					panic(err)
+				}
+			}
+			if err := wb.Flush(); err != nil {
+				panic(err)
+			}
+			e := &c15Env{L: &mcLedger{Net: tmpl.L.Net, Store: store}, Dir: dir, small: true, Acct: tmpl.Acct, Other: tmpl.Other,
+				pool: tmplPool, bodies: tmpl.bodies, firstFinal: map[crypto.Hash]crypto.Hash{}, baseTotal: tmpl.baseTotal, base: tmpl.base, baseKey: tmpl.baseKey, lastKey: tmpl.baseKey}
+			for j := range e.onChain {
+				e.onChain[j] = map[crypto.Hash]bool{}
+			}
+			c.Require(c15DumpHash(store.VerifDump("")) == tmpl.baseKey, "copy of the prepared ledger into the small store differs")
+			for k := 1; k <= len(tmplPool); k++ {
+				var calls []string
+				rep := func(key, desc string) {
+					c.Violation(key, desc, map[string]any{"part": "toobig", "memtable_bytes": sizes[i], "max_batch_count": db.MaxBatchCount(), "max_batch_size": db.MaxBatchSize(), "members": c15Classes(tmplPool[:k]), "calls": calls})
+				}
+				calls = append(calls, fmt.Sprintf("chain1:first %d members", k))
+				r := e.step(c, 0, tmplPool[:k], true, 0, true, rep)
+				c15Record(c, "toobig", r)
+				cls := "fits"
+				if r.TooBigAt >= 0 {
+					cls = fmt.Sprintf("overflow-at-write-%d-of-%d", r.TooBigAt, r.Writes)
+				}
+				c.Distinct(fmt.Sprintf("toobig:k=%d:%s:%s", k, cls, strings.SplitN(r.Outcome, "@", 2)[0]))
+				mu.Lock()
+				if k == len(tmplPool) {
+					if r.TooBigAt >= 0 {
+						covered[fmt.Sprintf("%d", r.TooBigAt)] = true
+					} else {
+						fits++
+					}
+					covered["writes"] = true
+					c.Set("toobig_full_batch_writes", r.Writes)
+				}
+				mu.Unlock()
+				if k == len(tmplPool) && i%16 == 0 {
+					c.Sample(map[string]any{"part": "toobig", "memtable_bytes": sizes[i], "max_batch_count": db.MaxBatchCount(), "members": k, "writes": r.Writes, "overflow_at_write": r.TooBigAt, "outcome": r.Outcome})
+				}
+				if r.OK {
+					e.reset(c)
+				}
+			}
+		})
+	})
+	c.Set("toobig_full_batch_overflow_points", len(covered)-1)
+	c.Set("toobig_full_batch_fitting_stores", fits)
+	if !c.Expired("toobig guards") {
+		c.Require(fits > 0, "no small store on which the full batch fits")
+		c.Require(len(covered)-1 >= verifmc.Pick(c, 30, 40), "overflow point of the full batch reached only %d distinct writes", len(covered)-1)
+	}
+}
+
 // ---------------------------------------------------------------- test
 
 func TestMC_C15(t *testing.T) {
@@ -1336,6 +1635,10 @@ func TestMC_C15(t *testing.T) {
 	lap("histories")
 	c15PartCut(c, t)
 	lap("cut")
+	c15PartRefinalize(c)
+	lap("refinalize")
+	c15PartTooBig(c, t)
+	lap("toobig")
 
 	// vacuity guards (meaningless when the wall-clock cap cut the run short)
 	if c.Expired("vacuity guards") {
@@ -1362,6 +1665,12 @@ func TestMC_C15(t *testing.T) {
 	need("ok:3-fresh+0-final")
 	need("ok:0-fresh+3-final")
 	need("ok:1-fresh+1-final")
+	for _, r := range []string{"earlier", "equal", "later"} {
+		need("refinalize:second-" + r + ":ok")
+	}
+	need("reject:error:toobig@0/")
+	need("reject:error:toobig@5/6")
+	need("reject:error:toobig@-1/")
 	for _, l := range []string{"Xg-first", "Xg-middle", "Xg-last", "Xa-first", "Xa-middle", "Xa-last"} {
 		need("large:" + l + ":reject:error:")
 	}
@@ -1393,6 +1702,14 @@ func c15OutcomeNames(c *verifmc.Check) []string {
 		}
 	}
 	out = append(out, "reject:cut@commit1")
+	for _, r := range []string{"earlier", "equal", "later"} {
+		out = append(out, "refinalize:second-"+r+":ok")
+	}
+	for n := 1; n <= 6; n++ {
+		for p := -1; p < n; p++ {
+			out = append(out, fmt.Sprintf("reject:error:toobig@%d/%d", p, n))
+		}
+	}
 	for _, l := range []string{"Xg-first", "Xg-middle", "Xg-last", "Xa-first", "Xa-middle", "Xa-last"} {
 		out = append(out, "large:"+l+":reject:error:ghost", "large:"+l+":reject:error:asset")
 	}
